@@ -1,2 +1,96 @@
-(* C11 -- statement file *)
-From SV Require Import Sess.Model.
+(* C11 -- a client and a server session interoperate under any interleaving. *)
+From Coq Require Import ZArith NArith List.
+From Coq.Strings Require Import Byte.
+From SV Require Import Base.Bytes Base.Py Msg.Types Msg.Encode Msg.Decode Msg.RoundTrip
+  Sess.Model Sess.Drain Sess.Chunk Sess.Proto Sess.Joint.
+Import ListNotations.
+Local Open Scope Z_scope.
+
+(* The joint system: a client session and a server session of the session model (the same [step] and
+   [process_all] that are compared with the implementation on every run), joined by two FIFO queues.
+   A step is: an API call the client accepts (bind / extended / search / unbind, any arguments), an API
+   call the server accepts and that answers an outstanding request with a response of the matching
+   kind (any of the five responses, notice of disconnection, unbind), the delivery of the oldest
+   message in flight to an open endpoint, or the refusal of a message by an endpoint that has already
+   closed.  [jreach] is every state reachable by any finite interleaving of such steps. *)
+
+(* No protocol error other than the designed terminations: whatever the interleaving, the message
+   that arrives next at an open server is accepted, unless it is the client's unbind ... *)
+Theorem C11_server_accepts_everything_sent :
+  forall d j m q sv' r,
+  jreach d j -> qcs j = m :: q -> s_state (sv j) <> CLOSED -> process_all (sv j) [m] = (sv', r) ->
+  r = None \/ (m_op m = UnbindRequest /\ exists w n, r = Some (PF w n)).
+Proof. exact no_spurious_error_at_server. Qed.
+
+(* ... and the message that arrives next at an open client is accepted, unless it is the server's
+   unbind or notice of disconnection (never KeyError, never "unknown message id"). *)
+Theorem C11_client_accepts_everything_sent :
+  forall d j m q cl' r,
+  jreach d j -> qsc j = m :: q -> s_state (cl j) <> CLOSED -> process_all (cl j) [m] = (cl', r) ->
+  r = None \/ ((m_op m = UnbindRequest \/ is_notice (m_op m) = true) /\ exists w n, r = Some (PF w n)).
+Proof. exact no_spurious_error_at_client. Qed.
+
+(* Whenever everything sent has been delivered, both sides agree on the session state (BEFORE_OPEN
+   and OPENED alike) and on which operations and which searches are still in progress. *)
+Theorem C11_agreement_when_all_delivered :
+  forall d j, jreach d j -> qcs j = [] -> qsc j = [] ->
+  same_state (s_state (cl j)) (s_state (sv j)) /\
+  (s_state (cl j) <> CLOSED ->
+   (forall i, In i (s_outstanding (cl j)) <-> In i (s_outstanding (sv j))) /\
+   (forall i, In i (s_searches (cl j)) <-> In i (s_searches (sv j)))).
+Proof. exact agreement_when_delivered. Qed.
+
+(* The pipes: the octets queued for any sequence of messages parse back to exactly those messages, in
+   order, each once, as equal values (up to the raw octets a decoded paged control exposes) ... *)
+Theorem C11_octets_carry_the_messages :
+  forall d ms, Forall (wf_msg d) ms -> parse d (concat (map enc_msg ms)) = Ok (map norm_msg ms, []).
+Proof. exact parse_encodings. Qed.
+
+(* ... however the octets are cut into deliveries. *)
+Theorem C11_delivered_exactly_once_in_order :
+  forall d s ms chunks s' got,
+  Forall (wf_msg d) ms -> s_state s <> CLOSED -> s_in s = [] -> chunks <> [] ->
+  concat chunks = concat (map enc_msg ms) ->
+  receive d s (concat chunks) = (s', ORetMsgs got) ->
+  got = map norm_msg ms /\ receive_chunks d s chunks = Some (s', got) /\ s_in s' = [].
+Proof. exact delivered_exactly_once_in_order. Qed.
+
+(* the invariant behind the three theorems holds in every reachable state of the abstract protocol
+   that the joint system refines *)
+Theorem C11_refinement :
+  forall d j j', roles_ok j -> inv (abs j) -> jstep d j j' -> astep (abs j) (abs j') /\ roles_ok j'.
+Proof. exact jstep_refines. Qed.
+
+(* non-vacuity: bind, delivery, SASL-in-progress response, delivery, second bind -- a reachable
+   history through the phases the invariant distinguishes *)
+Example C11_reachable_example :
+  exists j, jreach 10 j /\ s_state (cl j) = BINDING /\ s_state (sv j) = BINDING /\ s_counter (cl j) = 3 /\
+            length (qcs j) = 1%nat /\ qsc j = [].
+Proof.
+  pose (b := CBind [x63] (CrSimple []) []).
+  pose (j1 := mkJ (fst (step 10 (init Client) b)) (init Server) [mkMsg 1 (BindRequest 3 [x63] (CrSimple [])) []] []).
+  assert (R1 : jreach 10 j1).
+  { eapply jreach_step; [apply jreach_init|]. apply (J_client 10 jinit b _ (ORetId 1)); reflexivity. }
+  pose (j2 := mkJ (cl j1) (after (fst (process_all (sv j1) (qcs j1))) None) [] []).
+  assert (R2 : jreach 10 j2).
+  { eapply jreach_step; [exact R1|]. apply (J_dcs 10 j1 (mkMsg 1 (BindRequest 3 [x63] (CrSimple [])) []) [] (fst (process_all (sv j1) (qcs j1))) None); [reflexivity|discriminate|reflexivity]. }
+  pose (rsp := SBindResponse 1 None 14 [] [] []).
+  pose (j3 := mkJ (cl j2) (fst (step 10 (sv j2) rsp)) [] [mkMsg 1 (BindResponse (server_result 14 [] []) None) []]).
+  assert (R3 : jreach 10 j3).
+  { eapply jreach_step; [exact R2|]. apply (J_server 10 j2 rsp _ (ORetId 1)); try reflexivity.
+    split; [intros []|reflexivity]. }
+  pose (j4 := mkJ (after (fst (process_all (cl j3) (qsc j3))) None) (sv j3) [] []).
+  assert (R4 : jreach 10 j4).
+  { eapply jreach_step; [exact R3|]. apply (J_dsc 10 j3 (mkMsg 1 (BindResponse (server_result 14 [] []) None) []) [] (fst (process_all (cl j3) (qsc j3))) None); [reflexivity|discriminate|reflexivity]. }
+  pose (j5 := mkJ (fst (step 10 (cl j4) b)) (sv j4) [mkMsg 2 (BindRequest 3 [x63] (CrSimple [])) []] []).
+  assert (R5 : jreach 10 j5).
+  { eapply jreach_step; [exact R4|]. apply (J_client 10 j4 b _ (ORetId 2)); reflexivity. }
+  exists j5. split; [exact R5|]. vm_compute. repeat split; reflexivity.
+Qed.
+
+Print Assumptions C11_server_accepts_everything_sent.
+Print Assumptions C11_client_accepts_everything_sent.
+Print Assumptions C11_agreement_when_all_delivered.
+Print Assumptions C11_octets_carry_the_messages.
+Print Assumptions C11_delivered_exactly_once_in_order.
+Print Assumptions C11_refinement.
